@@ -358,7 +358,14 @@ func runGen(kind, src, fullPorts, chunkPorts, excl, cache, gw, ord string) (obse
 		if err != nil {
 			return "FAIL " + causeOf(err)
 		}
+		// the requests are looked at only when the stream has ended: the engine's workers hold a request (while
+		// they wait for the rate limiter, a slow target, …) long after later ones were generated, so a generator that
+		// recycles or aliases what it has handed out shows up as a request that changed afterwards
+		var held []*scan.Request
 		for rq := range ch {
+			held = append(held, rq)
+		}
+		for _, rq := range held {
 			reqs = append(reqs, reqCanon(rq))
 		}
 	case "pkt-tcp", "pkt-udp", "pkt-icmp", "pkt-arp":
